@@ -132,7 +132,7 @@ theorem toEntryBody_nil (fuel : Nat) (scope : List Stmt) (st : TState) (hn : Goo
               · rename_i g groot gscope hfg
                 have hk := (Goyang.Lemmas.Fuel.findGrouping_sound hfg).1
                 exact hrec _ _ _ _ _ (good_of_kw hk (by decide)) h
-            · exact dirBody_nil hreg hrec root n visiting scope st _ hn h
+            · exact dirBody_nil hreg hrec root n _ scope st _ hn h
 
 end Step
 
@@ -163,5 +163,163 @@ theorem tstate_nil (reg : Registry) (opts : Opts) (plug : Plug) (h : NoAugDev re
   intro st m hm hst
   exact toEntry_nil (env := envOf reg opts plug) (fun x hx => (h x hx).1) (entryFuel reg) m [] m.stmt [] st
     (fun _ => (h m (mem_keyOrder hm)).1) hst
+
+/-! ### the augment stage with nothing pending -/
+
+/-- Every pending list is empty. -/
+def PNil (s : PState) : Prop := ∀ p ∈ s.pending, p.2 = []
+
+theorem pendingOf_nil (s : PState) (h : PNil s) (id : Nat) : s.pendingOf id = [] := by
+  unfold PState.pendingOf
+  cases hf : s.pending.find? (·.1 == id) with
+  | none => rfl
+  | some q => exact h q (List.mem_of_find?_eq_some hf)
+
+theorem setPending_nil (s : PState) (h : PNil s) (id : Nat) : s.setPending id [] = s := by
+  unfold PState.setPending
+  have : (s.pending.map fun (p : Nat × List Entry) => match p with | (i, p) => if (i == id) = true then (i, []) else (i, p))
+      = s.pending := by
+    conv => rhs; rw [← List.map_id s.pending]
+    apply List.map_congr_left
+    rintro ⟨i, p⟩ hp
+    have hp' : p = [] := h (i, p) hp
+    subst hp'
+    simp
+  rw [this]
+
+theorem augmentTree_nil (reg : Registry) (id : Nat) (b : Bool) (s : PState) (h : PNil s) :
+    augmentTree reg id b s = (s, 0, 0) := by
+  rw [augmentTree_eq, pendingOf_nil s h id]
+  simp only [List.foldl_nil]
+  rw [setPending_nil s h id]
+
+theorem augmentPass_nil (reg : Registry) : ∀ (fuel : Nat) (mods : Array Nat) (i processed : Nat) (s : PState), PNil s →
+    (augmentPass reg fuel mods i processed s).2 = (processed, s) := by
+  intro fuel
+  induction fuel with
+  | zero => intro mods i processed s _; rfl
+  | succ fuel ih =>
+    intro mods i processed s h
+    unfold augmentPass
+    split
+    · rename_i hi
+      rw [augmentTree_nil reg _ false s h]
+      simp only [beq_self_eq_true, if_true, Nat.add_zero]
+      exact ih _ _ _ _ h
+    · rfl
+
+theorem augmentLoop_nil (reg : Registry) : ∀ (fuel : Nat) (mods : Array Nat) (s : PState), PNil s →
+    (augmentLoop reg fuel mods s).2 = s := by
+  intro fuel
+  induction fuel with
+  | zero => intro mods s _; rfl
+  | succ fuel ih =>
+    intro mods s h
+    unfold augmentLoop
+    split
+    · rfl
+    · have hp := augmentPass_nil reg (mods.size + 1) mods 0 0 s h
+      generalize augmentPass reg (mods.size + 1) mods 0 0 s = X at hp ⊢
+      obtain ⟨mods', processed, s'⟩ := X
+      simp only [Prod.mk.injEq] at hp
+      obtain ⟨rfl, rfl⟩ := hp
+      simp
+
+/-! ### the stages of `processAll` -/
+
+section Stages
+variable (reg : Registry) (opts : Opts) (plug : Plug)
+
+theorem pstate0_nil (h : NoAugDev reg) : PNil (pstate0 reg opts plug) := by
+  intro p hp
+  simp only [pstate0, pending0, List.mem_map] at hp
+  obtain ⟨m, _, rfl⟩ := hp
+  dsimp only
+  cases hf : (tstate reg opts plug).augs.find? (·.1 == m.seq) with
+  | none => rfl
+  | some q => exact tstate_nil reg opts plug h q (List.mem_of_find?_eq_some hf)
+
+theorem fixAll_nil (s : PState) (h : PNil s) : PNil (fixAll s) := h
+
+theorem afterLoop_nil (h : NoAugDev reg) : (afterLoop reg opts plug).2 = pstate0 reg opts plug :=
+  augmentLoop_nil reg _ _ _ (pstate0_nil reg opts plug h)
+
+theorem leftoverPass_nil (h : NoAugDev reg) : leftoverPass reg opts plug = (fixAll (pstate0 reg opts plug), 0) := by
+  unfold leftoverPass
+  rw [afterLoop_nil reg opts plug h]
+  refine foldl_inv (fun acc : PState × Nat => acc = (fixAll (pstate0 reg opts plug), 0)) _ _ _ rfl ?_
+  rintro acc id _ rfl
+  dsimp only
+  rw [augmentTree_nil reg id true _ (fixAll_nil _ (pstate0_nil reg opts plug h))]
+
+/-- Without augments the state before the deviations is the conversion result with `fixChoice`
+applied to every tree. -/
+theorem preDev_nil (h : NoAugDev reg) : preDev reg opts plug = fixAll (pstate0 reg opts plug) := by
+  unfold preDev
+  rw [leftoverPass_nil reg opts plug h]
+  simp
+
+theorem devStage_nil (h : NoAugDev reg) (f0 : Forest) :
+    (devStage reg opts plug f0).1 = f0 ∧ (devStage reg opts plug f0).2.1 = [] := by
+  unfold devStage
+  refine foldl_inv (fun acc : Forest × List Err × List String => acc.1 = f0 ∧ acc.2.1 = []) _ _ _ ⟨rfl, rfl⟩ ?_
+  rintro ⟨f, errs, done⟩ m hm ⟨hf, he⟩
+  dsimp only at hf he ⊢
+  subst hf he
+  split
+  · exact ⟨rfl, rfl⟩
+  · rw [(h m (mem_keyOrder hm)).2]
+    exact ⟨rfl, rfl⟩
+
+theorem forestErrs_fixAll (s : PState) (h : forestErrs s.forest = []) : forestErrs (fixAll s).forest = [] := by
+  rw [forestErrs_eq_nil] at h ⊢
+  intro t ht
+  simp only [fixAll, List.mem_map] at ht
+  obtain ⟨⟨i, e⟩, hie, rfl⟩ := ht
+  exact (noErrors_fixChoice e).2 (h (i, e) hie)
+
+theorem canonErrs_nil : canonErrs [] = [] := by
+  simp [canonErrs, sortBy]
+
+theorem isEmpty_false_of_ne_nil {α} (l : List α) (h : l ≠ []) : (!l.isEmpty) = true := by
+  cases l with
+  | nil => exact absurd rfl h
+  | cons a t => rfl
+
+/-- The first stage (linking, identities, typedefs) failed: its errors are the result. -/
+theorem processAll_stage1 (h1 : stage1Errs reg plug ≠ []) :
+    (processAll reg opts plug).errors = canonErrs (stage1Errs reg plug) := by
+  rw [processAll_eq, if_pos (isEmpty_false_of_ne_nil _ h1)]
+
+/-- The conversion stage failed: its errors are the result. -/
+theorem processAll_stage2 (h1 : stage1Errs reg plug = []) (h2 : forestErrs (forest0 reg opts plug) ≠ []) :
+    (processAll reg opts plug).errors = canonErrs (forestErrs (forest0 reg opts plug)) := by
+  rw [processAll_eq, h1, if_pos (isEmpty_false_of_ne_nil _ h2)]
+  rfl
+
+/-- A clean result: the first two stages were clean (every registry). -/
+theorem processAll_clean_stages (h : (processAll reg opts plug).errors = []) :
+    stage1Errs reg plug = [] ∧ forestErrs (forest0 reg opts plug) = [] :=
+  let ⟨a, b, _⟩ := processAll_clean reg opts plug h
+  ⟨a, b⟩
+
+/-- **No augment, no deviation**: when the first two stages are clean, `processAll` reports no
+error and answers the forest of the conversion stage with `fixChoice` applied to every tree. -/
+theorem processAll_noAugDev (h : NoAugDev reg)
+    (h1 : stage1Errs reg plug = []) (h2 : forestErrs (forest0 reg opts plug) = []) :
+    (processAll reg opts plug).errors = [] ∧
+    (processAll reg opts plug).forest =
+      { trees := (forest0 reg opts plug).trees.map fun (p : Nat × Entry) => (p.1, fixChoice p.2) } := by
+  have hd := devStage_nil reg opts plug h (preDev reg opts plug).forest
+  have hp := preDev_nil reg opts plug h
+  have he : forestErrs (preDev reg opts plug).forest = [] := by
+    rw [hp]; exact forestErrs_fixAll _ h2
+  rw [processAll_eq]
+  simp only [h1, h2, List.isEmpty_nil, Bool.not_true, Bool.false_eq_true, if_false]
+  refine ⟨?_, ?_⟩
+  · rw [hd.2, he]; exact canonErrs_nil
+  · rw [hd.1, hp]; rfl
+
+end Stages
 
 end Goyang.Lemmas.IncludeNoAug
